@@ -18,7 +18,7 @@ var reqOrigins = []string{"", "https://a.com", "https://b.com", "https://c.com",
 var reqACRM = []string{"", "", "GET", "POST", "PUT", "HEAD", "OPTIONS", "junk", "get", "TRACE", "DELETE"}
 var reqACRH = []string{"", "", "Content-Type", "content-type", "CONTENT-TYPE, x-token", " Content-Type ,X-Token", "X-Other",
 	"Content-Type,,X-Token", ",", "Content-Type, X-Evil", "x-token", "X-Token,Content-Type", " ", "Authorization"}
-var reqMethods = []string{"GET", "HEAD", "OPTIONS", "OPTIONS", "OPTIONS", "PUT", "POST", "TRACE", "DELETE"}
+var reqMethods = []string{"GET", "HEAD", "OPTIONS", "OPTIONS", "OPTIONS", "PUT", "POST", "TRACE", "DELETE", "", "BOGUS"}
 var reqPaths = []string{"/a", "/a", "/b/5", "/nope", "*", "/b/x/y"}
 
 func genCORS(r *rand.Rand, w *W) [][]string {
